@@ -61,7 +61,7 @@ def evaluate(patch):
         r = sh('patch -p1 --no-backup-if-mismatch < %s' % patch, cwd=d)
         if r.returncode != 0:
             return {'error': 'patch failed'}
-        env = dict(os.environ, HMSA_REPO=d)
+        env = dict(os.environ, HMSA_REPO=d, HMSA_EVIDENCE=os.path.join(d, 'evidence'))
         for pid in ALL:
             r = sh('./check %s --tier quick' % pid, cwd=HERE, env=env)
             if r.returncode != 0:
@@ -96,19 +96,23 @@ def main():
         print(sid, 'confirmed' if c['confirmed'] else 'NOT CONFIRMED', json.dumps(c)[:600])
         return
     if sys.argv[1] == 'eval':
-        ids = sys.argv[2:] or sorted(os.listdir(SEEDED))
-        for sid in ids:
-            mp = os.path.join(SEEDED, sid, 'meta.json')
-            if not os.path.exists(mp):
-                continue
-            meta = json.load(open(mp))
+        ids = [a for a in sys.argv[2:] if not a.startswith('-')] or sorted(os.listdir(SEEDED))
+        jobs = int([a[2:] for a in sys.argv if a.startswith('-j')][0]) if any(a.startswith('-j') for a in sys.argv) else 1
+        ids = [sid for sid in ids if os.path.exists(os.path.join(SEEDED, sid, 'meta.json'))]
+
+        def one(sid):
             t0 = time.time()
-            fired = evaluate(os.path.join(SEEDED, sid, 'patch.diff'))
-            meta['checks_fired'] = fired
-            meta['caught_by_target_check'] = meta['breaks_property'] in fired
-            json.dump(meta, open(mp, 'w'), indent=1)
-            print('%-12s target=%s caught=%s fired=%s %.0fs' % (sid, meta['breaks_property'], meta['caught_by_target_check'], sorted(fired), time.time() - t0))
-            sys.stdout.flush()
+            return sid, evaluate(os.path.join(SEEDED, sid, 'patch.diff')), time.time() - t0
+        from concurrent.futures import ThreadPoolExecutor
+        with ThreadPoolExecutor(max_workers=jobs) as ex:
+            for sid, fired, dt in ex.map(one, ids):
+                mp = os.path.join(SEEDED, sid, 'meta.json')
+                meta = json.load(open(mp))
+                meta['checks_fired'] = fired
+                meta['caught_by_target_check'] = meta['breaks_property'] in fired
+                json.dump(meta, open(mp, 'w'), indent=1)
+                print('%-12s target=%s caught=%s fired=%s %.0fs' % (sid, meta['breaks_property'], meta['caught_by_target_check'], sorted(fired), dt))
+                sys.stdout.flush()
 
 
 if __name__ == '__main__':
